@@ -6,7 +6,7 @@ from harness.props import c03, c04, c06
 
 ID = "C19"
 ENTRY = "pd.concat([...]) / Series.reindex / take(allow_fill) / SearchArray(list_of_elements), then any query"
-LEVEL = "other"
+LEVEL = "proof"
 RULE = ("corpora x the ways pandas rebuilds an extension array from scalars: SearchArray(list(arr)), SearchArray(list(view)) "
         "(views made with unsorted / repeated keys), pd.concat of 2..4 columns, take(allow_fill=True), Series.reindex / "
         "shift, astype(object) and back; queries: tf, phrase, positions, lengths on the result, plus docfreq and default "
